@@ -64,6 +64,87 @@ class TrackedIterable:
       yield x
 
 
+def _kind(key):
+  """Which aggregate a result key belongs to ('int', 'tsum', 'cnt' or None)."""
+  for k in ('int', 'tsum', 'cnt'):
+    if f"{k}'" in key:
+      return k
+  return None
+
+
+def _add(kind, a, b):
+  if a is None:
+    return copy.deepcopy(b)
+  if kind == 'int':     # count, total, sumsq, xor, hsum
+    return [a[0] + b[0], a[1] + b[1], a[2] + b[2], a[3] ^ b[3], a[4] + b[4]]
+  if kind == 'tsum':    # 'tsum', rows, sum x, sum id*x
+    return [a[0]] + [x + y for x, y in zip(a[1:], b[1:])]
+  out = dict(a)
+  for k, x in b.items():
+    out[k] = out.get(k, 0) + x
+  return out
+
+
+def _zero(kind):
+  return {'int': [0, 0, 0, 0, 0], 'tsum': ['tsum', 0, 0, 0], 'cnt': {}}[kind]
+
+
+def _readahead_explanation(obs):
+  """Source elements whose loss explains the resumed aggregates, or None.
+
+  Candidates are the elements read from the source before some crash.  An
+  element may be lost before the first stage's aggregates or only after them,
+  so two nested sets are searched: lost for the early ('e_') aggregates, and
+  lost for the later ones.  Only additive aggregates are decisive.
+  """
+  import itertools
+  per = {int(i): d for i, d in obs['per_elem'].items()}
+  cand = sorted(set(i for r in obs['reads_at_cut'] for i in r) & set(per))
+  want = obs['res']
+  keys = [k for k in obs['ref_res'] if _kind(k)]
+  if not keys or len(cand) > 9:
+    return None
+  early = [k for k in keys if "'e_" in k]
+  late = [k for k in keys if "'e_" not in k]
+
+  def total(ks, dropped):
+    out = {}
+    for k in ks:
+      acc = None
+      for i, d in per.items():
+        if i in dropped or d is None or k not in d:
+          continue
+        acc = _add(_kind(k), acc, d[k])
+      out[k] = acc
+    return out
+
+  def matches(ks, dropped):
+    tot = total(ks, dropped)
+    for k in ks:
+      w = want.get(k)
+      t = tot[k]
+      if t is None:
+        t = _zero(_kind(k))
+      if isinstance(t, dict):
+        t = {a: b for a, b in t.items() if b}
+        w = {a: b for a, b in (w or {}).items() if b}
+      if t != w:
+        return False
+    return True
+
+  for n in range(0, len(cand) + 1):
+    for s_late in itertools.combinations(cand, n):
+      if not matches(late, set(s_late)):
+        continue
+      for m in range(0, len(s_late) + 1):
+        for s_early in itertools.combinations(s_late, m):
+          if matches(early, set(s_early)):
+            if s_late:
+              return {'after_first_stage': list(s_late),
+                      'before_first_stage': list(s_early)}
+  return None
+
+
 class CkptFamily(common.Family):
   prop = 'C10'
   name = 'ckpt'
@@ -106,6 +187,7 @@ class CkptFamily(common.Family):
         'spec': spec, 'level': level, 'kind': kind, 'shards': shards,
         'files': files,
         'cuts': cuts, 'stages': cutpoints, 'num_threads': num_threads,
+        'after': [rng.choice([0, 0, 1, 2, 3]) for _ in cuts],
         'sim': {'fine': num_threads > 0 and rng.random() < 0.2,
                 'stay': rng.choice([0.0, 0.0, 0.5, 0.8])},
     }
@@ -170,8 +252,19 @@ class CkptFamily(common.Family):
         break
       # ---- crash: only the pickled state survives --------------------------
       sim.count('fault:crash_restore')
-      blob = cloudpickle.dumps(it.state)
+      # periodic checkpointing: the checkpoint is taken here, the job runs on
+      # for `after` more elements and crashes then; what was captured is
+      # written out only at the crash (it stays a live object until then)
+      state_obj = it.state
       reads_at_cut.append(sorted(set(tracked.reads)))
+      after = (cfg.get('after') or [0] * len(cfg['cuts']))[g]
+      for _ in range(after):
+        try:
+          next(it)
+          sim.count('probe:ran_on_after_checkpoint')
+        except StopIteration:
+          break
+      blob = cloudpickle.dumps(state_obj)
       if hasattr(it, 'maybe_stop') and sim.choose(2, 'o'):
         # half of the crashes are "graceful": the old iterator is stopped;
         # the others simply abandon it (its threads stay where they are)
@@ -190,8 +283,26 @@ class CkptFamily(common.Family):
       tail = [key(b) for b in it]
     segments.append(tail)
     res = pipes.norm_result(it.agg_result) if has_agg else None
+    per_elem = None
+    if has_agg and cfg['num_threads'] and res != ref_res:
+      # what every single source element contributes to every aggregate (no
+      # re-batching in this family: elements are processed independently);
+      # used to tell the known read-ahead loss from any other difference
+      per_elem = {}
+      import numpy as np
+      own = {int(np.asarray(x['id']).reshape(-1)[0]) // spec['rows']
+             for x in iter(self._source(cfg, mk()))}
+      for i, x in enumerate(data):
+        if i not in own:
+          continue      # not in this shard
+        p1 = pipes.build(spec, data_source=[x], stages=cfg['stages'] or None)
+        it1 = p1.make().iterate()
+        for _ in it1:
+          pass
+        per_elem[i] = pipes.norm_result(it1.agg_result)
     return {'ref': ref, 'ref_res': ref_res, 'segments': segments, 'res': res,
-            'reads_at_cut': reads_at_cut, 'n_data': len(data)}
+            'reads_at_cut': reads_at_cut, 'n_data': len(data),
+            'per_elem': per_elem}
 
   # ------------------------------------------------------------------------
   def check(self, cfg, out):
@@ -251,8 +362,20 @@ class CkptFamily(common.Family):
                      f'shards={cfg["shards"]}'))
     if obs['ref_res'] is not None and not res:
       if not pipes.results_equal(obs['ref_res'], obs['res']):
-        res.append(v('aggregate', f'differs:{tag}:{nested}:{gtag}',
-                     f"uninterrupted {obs['ref_res']} != resumed {obs['res']}"))
+        lost = None
+        if cfg['num_threads'] and obs.get('per_elem'):
+          lost = _readahead_explanation(obs)
+        if lost is not None:
+          # the read-ahead loss seen through an aggregate only (the batches
+          # themselves were filtered out further down, or belong to an
+          # earlier stage)
+          res.append(v('resume', f"skipped-readahead:{cfg['level']}:threads",
+                       f"aggregates differ exactly by source elements "
+                       f"{lost} which had been read before a crash: "
+                       f"uninterrupted {obs['ref_res']} != resumed {obs['res']}"))
+        else:
+          res.append(v('aggregate', f'differs:{tag}:{nested}:{gtag}',
+                       f"uninterrupted {obs['ref_res']} != resumed {obs['res']}"))
     return res
 
   def shrink(self, cfg):
@@ -261,7 +384,13 @@ class CkptFamily(common.Family):
     spec = cfg['spec']
     if len(cfg['cuts']) > 1:
       for i in range(len(cfg['cuts'])):
-        c = copy.deepcopy(cfg); del c['cuts'][i]; yield c
+        c = copy.deepcopy(cfg); del c['cuts'][i]
+        if c.get('after'):
+          del c['after'][i]
+        yield c
+    for i, a in enumerate(cfg.get('after') or ()):
+      if a:
+        c = copy.deepcopy(cfg); c['after'][i] = a - 1; yield c
     for i in range(len(spec['ops'])):
       c = copy.deepcopy(cfg)
       del c['spec']['ops'][i]
@@ -311,6 +440,8 @@ class CkptFamily(common.Family):
       p.append('probe:second_generation_restore')
     if cfg['num_threads'] and out['counters'].get('fault:crash_restore', 0):
       p.append('probe:checkpoint_of_threaded_pipeline')
+    if out['counters'].get('probe:ran_on_after_checkpoint', 0):
+      p.append('probe:ran_on_after_checkpoint')
     if len(cfg['shards']) > 1:
       p.append('probe:nested_shards')
     return p
